@@ -132,6 +132,20 @@ static const char* const DOTSEGS[] = {"", ".", "..", "a", "b", "b:c", "", ".", "
 static const char* const QUERIES[] = {"", "q", "a=b&c=d", "/?", "%41%3a%2f", "q?x/y", "%7e", "%7E", "a%20b", "x=%c3%a4", ":@", "?"};
 #define PICK(arr, rng) Str(arr[(rng).below((uint32_t)(sizeof(arr) / sizeof(arr[0])))])
 
+size_t special_length(Rng& rng) {
+    static const size_t L[] = {1, 2, 3, 4, 5, 7, 8, 9, 15, 16, 17, 31, 32, 33, 63, 64, 65, 127, 128, 129, 254, 255, 256, 257, 258, 511, 512, 513, 1023, 1024, 1025, 4095, 4096, 4097};
+    return L[rng.below(sizeof L / sizeof L[0] - (rng.chance(9, 10) ? 9 : 0))];     // the ones above 500 only rarely
+}
+Str gen_exact_length(Rng& rng, size_t n) {
+    static const char cs[] = "abcXYZ019-._~!$&'()*+,;=";
+    Str s; int style = (int)rng.below(4);
+    while (s.size() < n) {
+        if (style == 1 && n - s.size() >= 3 && rng.chance(1, 3)) { static const char* t[] = {"%41", "%7e", "%2F", "%c3", "%A4", "%2e", "%3A"}; s += t[rng.below(7)]; }
+        else if (style == 2) s.push_back('a');
+        else s.push_back(cs[rng.below(sizeof cs - 1)]);
+    }
+    return s;
+}
 Str gen_ip6(Rng& rng) {
     if (rng.chance(1, 2)) return PICK(IP6S, rng);
     // random from the nine ABNF shapes: L groups, "::", R groups (+ optional ipv4 tail)
@@ -178,23 +192,26 @@ Str gen_uri(Rng& rng, const UriGenOpts& o) {
     Str s;
     bool scheme = o.scheme < 0 ? rng.chance(1, 2) : o.scheme != 0;
     bool auth = o.auth < 0 ? rng.chance(1, 2) : o.auth != 0;
-    if (scheme) { s += PICK(SCHEMES, rng); s += ':'; }
+    bool special = o.lengths && rng.chance(1, 12);      // one component of a special length (counters, int/char-sized lengths, buffers)
+    int which = special ? (int)rng.below(6) : -1;
+    if (scheme) { if (which == 0) { Str sc(special_length(rng), 'a'); for (auto& ch : sc) ch = (char)('a' + rng.below(26)); s += sc; } else s += PICK(SCHEMES, rng); s += ':'; }
     if (auth) {
         s += "//";
-        if (rng.chance(1, 3)) { s += PICK(USERS, rng); s += '@'; }
-        s += gen_host(rng);
+        if (rng.chance(1, 3) || which == 1) { s += which == 1 ? gen_exact_length(rng, special_length(rng)) : PICK(USERS, rng); s += '@'; }
+        s += which == 2 ? gen_exact_length(rng, special_length(rng)) : gen_host(rng);
         if (rng.chance(1, 3)) { s += ':'; s += PICK(PORTS, rng); }
     }
     int nseg = rng.range(0, o.maxSegs);
+    if (o.lengths && rng.chance(1, 60)) nseg = (int)special_length(rng) % 300;     // many segments
     bool rooted = auth ? true : rng.coin();
     if (nseg > 0 || (rooted && rng.coin())) {
         for (int i = 0; i < (nseg ? nseg : 1); i++) {
             if (i > 0 || rooted) s += '/';
-            if (nseg) s += gen_segment(rng, o.dotHeavy, o.noPctDots, o.longSeg);
+            if (nseg) s += (which == 3 && i == (nseg > 1 ? 1 : 0)) ? gen_exact_length(rng, special_length(rng)) : gen_segment(rng, o.dotHeavy, o.noPctDots, o.longSeg);
         }
     }
-    if (rng.chance(1, 3)) { s += '?'; s += PICK(QUERIES, rng); }
-    if (rng.chance(1, 4)) { s += '#'; s += PICK(QUERIES, rng); }
+    if (rng.chance(1, 3) || which == 4) { s += '?'; s += which == 4 ? gen_exact_length(rng, special_length(rng)) : PICK(QUERIES, rng); }
+    if (rng.chance(1, 4) || which == 5) { s += '#'; s += which == 5 ? gen_exact_length(rng, special_length(rng)) : PICK(QUERIES, rng); }
     return s;
 }
 static const char* const BASES[] = {"http://a/b/c/d;p?q", "http://a/b/c/d;p?q#f", "a:b", "a:/b", "a:", "a://h", "a://h/", "a://h/p", "a://h/p/", "a://h/p/q/r", "a:b/c", "a:b/c/",
